@@ -57,6 +57,8 @@ class NPO(NPProxy):
     """np stand-in: allocations are object arrays; fromfile is served by the stream"""
 
     def zeros(self, shape, dtype=float, order="C"):
+        if dtype not in (float, complex, np.float64, np.complex128, None):
+            return np.zeros(shape, dtype, order=order)
         a = np.empty(shape, dtype=object, order=order)
         a.fill(0.0)
         return a
